@@ -304,6 +304,36 @@ def run(ctx):
                 ctx.violation('impl-counterexample', 'filter %r: version / metadata / columns are not carried over' % text, rep)
                 return
         ctx.count('connectives:%d' % min(3, str(ast).count("'and'") + str(ast).count("'or'")))
+    # ---- literals of DIFFERENT kinds that compare equal (5 and 5 kW, 1 and true, 0 and false ...) in one filter: each comparison is against
+    # its own literal.  A grid with one row per (tag, value) over values of every such kind; every pair of literals, both connectives
+    plits = [('5', 5.0, False), ('5kW', h.Quantity(5.0, 'kW'), False), ('5kg', h.Quantity(5.0, 'kg'), False), ('5.0', 5.0, False), ('true', True, False),
+             ('1', 1.0, False), ('1kW', h.Quantity(1.0, 'kW'), False), ('false', False, False), ('0', 0.0, False), ('"x"', 'x', False), ('`x`', h.Uri('x'), False)]
+    pg = h.Grid(version='3.0')
+    for c in ('id', 'a', 'b'):
+        pg.column[c] = {}
+    for _, v, _ in plits:
+        pg.append({'a': v})
+        pg.append({'b': v})
+        pg.append({'a': v, 'b': v})
+    prows = list(pg)
+    ppos = {id(r): i for i, r in enumerate(prows)}
+    for i, j in itertools.product(range(len(plits)), repeat=2):
+        for conn in ('or', 'and'):
+            for opn in ('==', '!='):
+                ast = (conn, ('cmp', opn, ('a',), i), ('cmp', '==', ('b',), j))
+                text = render(rng, ast, plits)
+                ctx.coverage['evaluations'] += 1
+                ctx.count('literal-pairs')
+                try:
+                    got = [ppos.get(id(r), -1) for r in pg.filter(text)]
+                except Exception as e:  # noqa
+                    ctx.violation('impl-counterexample', 'filter %r raised %s: %s' % (text, type(e).__name__, str(e)[:100]), {'filter': text, 'grid': 'literal-pairs'})
+                    return
+                want = [n for n, r in enumerate(prows) if spec_eval(h, prows, r, ast, plits)]
+                if got != want:
+                    ctx.violation('impl-counterexample', 'filter %r on the grid of literal values returned rows %r, it denotes rows %r (each comparison is against its own literal)'
+                                  % (text, got[:12], want[:12]), {'filter': text, 'grid': 'literal-pairs', 'rows': [repr(dict(r)) for r in prows][:40]})
+                    return
     for g, (snap, ids) in zip(grids, snapshots):
         if codec.canon(g) != snap or [id(r) for r in g] != ids:
             ctx.violation('impl-counterexample', 'filtering modified the source grid', {'seed': ctx.seed})
